@@ -334,6 +334,15 @@ def _get_or_make_region(
 
   # position
 
+  def _default_position_alignment():
+    if text_align == styles.TextAlignType.start:
+      return "line-right" if writing_mode == styles.WritingModeType.rltb else "line-left"
+    if text_align == styles.TextAlignType.end:
+      return "line-left" if writing_mode == styles.WritingModeType.rltb else "line-right"
+    return "center"
+
+  position = None
+
   value = cue_settings.get("position")
   if value is not None:
     value = value.split(",")
@@ -341,36 +350,51 @@ def _get_or_make_region(
     if len(value) > 1 and value[1] in ("center", "line-left", "line-right"):
       line_align = value[1]
     else:
-      if text_align == styles.TextAlignType.start:
-        line_align = "line-right" if writing_mode == styles.WritingModeType.rltb else "line-left"
-      elif text_align == styles.TextAlignType.end:
-        line_align = "line-left" if writing_mode == styles.WritingModeType.rltb else "line-right"
-      else:
-        line_align = "center"
+      line_align = _default_position_alignment()
 
     position = parse_vtt_pct(value[0])
-    if position is not None:
-      if line_align == "center":
-        if writing_mode in (styles.WritingModeType.rltb, styles.WritingModeType.lrtb):
-          origin_x = position - extent_width / 2
-        else:
-          origin_y = position - extent_height / 2
-      elif line_align == "line-left":
-        if writing_mode in (styles.WritingModeType.rltb, styles.WritingModeType.lrtb):
-          origin_x = position
-        else:
-          origin_y = position
-      elif line_align == "line-right":
-        if writing_mode in (styles.WritingModeType.rltb, styles.WritingModeType.lrtb):
-          origin_x = position - extent_width
-        else:
-          origin_y = position - extent_height
-      else:
-        LOGGER.warning("Bad position alignment setting value: %s", line_align)
 
-    else:
+    if position is None:
       LOGGER.warning("Bad position setting value: %s", cue_settings.get("position"))
 
+  elif cue_settings.get("size") is not None and parse_vtt_pct(cue_settings.get("size")) is not None:
+
+    # a cue box with an explicit size is positioned according to the text alignment
+
+    line_align = _default_position_alignment()
+    position = {"line-left": 0, "center": 50, "line-right": 100}[line_align]
+
+  if position is not None:
+    is_horizontal = writing_mode in (styles.WritingModeType.rltb, styles.WritingModeType.lrtb)
+
+    # the size of the cue box cannot exceed the room left by its position
+
+    max_size = {
+      "center": 2 * min(position, 100 - position),
+      "line-left": 100 - position,
+      "line-right": position
+    }[line_align]
+
+    if is_horizontal:
+      extent_width = min(extent_width, max_size)
+    else:
+      extent_height = min(extent_height, max_size)
+
+    if line_align == "center":
+      if is_horizontal:
+        origin_x = position - extent_width / 2
+      else:
+        origin_y = position - extent_height / 2
+    elif line_align == "line-left":
+      if is_horizontal:
+        origin_x = position
+      else:
+        origin_y = position
+    else:
+      if is_horizontal:
+        origin_x = position - extent_width
+      else:
+        origin_y = position - extent_height
 
   extent = styles.ExtentType(
     height=styles.LengthType(extent_height),
